@@ -8,7 +8,7 @@ from . import options as O
 BENIGN_PKINDS = ["pint", "pstr", "pcat", "pbool"]
 ALL_PKINDS = ["pint", "pfloat", "pbool", "pdt", "pstr", "pstr_num", "pcat", "pcat_int", "pdate"]
 
-PSTR_SIMPLE = ["a", "b", "c d", "zeta", "Ünï"]
+PSTR_SIMPLE = ["a", "b", "c d", "zeta", "Ünï", "5%25", "%41", "A", "5%", "x%2Fy"]      # (texts that look percent-escaped are texts)
 PSTR_NUM = ["1", "007", "1.0", "1e3", "True", "nan", "now", "-5", "0x10", "1_000", "NaN", "False", "inf", "2020-01-01", "1 day"]
 
 
